@@ -35,7 +35,12 @@ RULE = ('histories of 3-10 operations (copy, copy_like, copy_thermal_condition, 
         '2-3 streams (mostly MultiStreams of one package and phase tuple) mixing ms[phase] look-ups, writes of a flow / T / phase through '
         'the view, copy / flow_proxy / unlink of the view with link_with, unlink, phase(s) setters, copy_like (phase expansion), mutators, '
         'copy, proxies and reduce of the MultiStreams; compared with ModelViews.vrun: outcome of every operation, the keys of every '
-        '_streams dict in order, and values + aliasing labels over the store streams AND all cached views; non-trivial = a view exists at the end')
+        '_streams dict in order, and values + aliasing labels over the store streams AND all cached views; non-trivial = a view exists at the end.  '
+        'Family pickle-slots: histories of 3-9 operations over a store of property packages (Thermo(...) over either package with two '
+        'activity-coefficient classes, ideal(), pickle round trip, in-process __reduce__, __enter__, applied to packages with and without a '
+        'cached ideal package, to ideal packages and to earlier round-trip results); compared with ModelPickle.prun: outcome of every '
+        'operation and, for the whole object graph below the store in canonical order, the class and the state of EVERY slot of every '
+        'object (unset / None / value code / number of the referenced object); non-trivial = a pickle or reduce succeeded')
 ASSUMPTIONS = ['float rounding is not modelled: values compared to 1e-9 relative; inputs are dyadic so copies are exact',
                'links are only generated between streams of the same property package and, for MultiStreams, the same phase tuple '
                '(link_with checks neither); a MultiStream whose shared SparseArray was re-shaped by _expand_phases through its partner '
@@ -52,7 +57,12 @@ ASSUMPTIONS = ['float rounding is not modelled: values compared to 1e-9 relative
                'of _data_cache only the mass view is modelled (which dict an indexer holds, which rows the view wraps)']
 TRUSTED = ['model coq/C13/Model.v is hand-written from thermosteam/_stream.py, _multi_stream.py, indexer.py, _phase.py, '
            '_thermal_condition.py; SparseVector rows are dense Q lists; tie = correspondence check on values and aliasing',
-           'pickle of Reaction / Chemical / Thermo is executed, not modelled (harness compares observable state)',
+           'pickle of Reaction / Chemical is executed, not modelled (harness compares observable state); the generic pickling of slotted '
+           'classes (utils/pickle.py cucumber: get_state / new_from_state, misc.getfields / setfields) is interpreted by the hand-written '
+           'coq/C13/ModelPickle.v over class tables regenerated from the source on every run by tr/C13_pickle.py (slots, _pickle_recipe, '
+           'slot writes of Thermo.__init__ and Thermo.ideal(); the fixed-shape functions are compared with the expected AST, anything else '
+           'is a translator error); pickle itself is modelled as: reduce value built recursively, args first, memo per object, opaque '
+           'values (chemicals, mixture, classes) carried over as codes',
            'the equilibrium caches (_vle_cache, _lle_cache, _sle_cache) are executed, not modelled: after every operation their '
            'references must be the MultiStream\'s own indexer and thermal condition (eq_cache_checks)',
            'the per-phase views ms[phase] (LockedPhase) are modelled by hand in coq/C13/ModelViews.v (family phase-views of the '
